@@ -292,3 +292,13 @@ pub use ed25519::Signature;
 
 #[cfg(feature = "pkcs8")]
 pub use ed25519::pkcs8;
+
+// Verification hook (off unless built with `--cfg curve25519_dalek_verif`): includes harness /
+// wrapper code kept outside the repository.  Adds nothing to normal builds.
+#[cfg(curve25519_dalek_verif)]
+#[allow(unexpected_cfgs, missing_docs, dead_code, unused_imports, unused_qualifications)]
+#[allow(clippy::all)]
+#[doc(hidden)]
+pub mod verif_hooks {
+    include!(env!("ED25519_DALEK_VERIF_INCLUDE"));
+}
